@@ -594,6 +594,27 @@ def r9_option(src, ctx):
         if not hit: return src
 
 
+
+def r9b_or_insert_with(src, ctx):
+    """`E.entry(K).or_insert_with(|| X)` -> its std definition: vacant => insert(X), occupied => into_mut()."""
+    while True:
+        ct = _ct(src)
+        hit = False
+        for i in range(len(ct) - 2):
+            if ct[i].t == '.' and ct[i + 1].t == 'or_insert_with' and ct[i + 2].t == '(':
+                c = match_close(ct, i + 2)
+                cp = closure_parts(src, ct, i + 2, c)
+                if cp is None or cp[0] != '': raise Unsupported('or_insert_with argument is not a `|| expr` closure')
+                r0 = recv_start(ct, i - 1)
+                recv = src[ct[r0].s:ct[i].s].strip()
+                ev = ctx.fresh('e')
+                new = f'({{ let {ev} = {recv}; if {ev}.verif_is_vacant() {{ {ev}.verif_insert({cp[1]}) }} else {{ {ev}.verif_into_mut() }} }})'
+                ctx.log.append(('R9', re.sub(r'\s+', ' ', src[ct[r0].s:ct[c].e]), re.sub(r'\s+', ' ', new)))
+                src = src[:ct[r0].s] + new + src[ct[c].e:]
+                hit = True
+                break
+        if not hit: return src
+
 # ---------------------------------------------------------------- R7 collect
 
 def r7_collect(src, ctx):
@@ -675,6 +696,7 @@ def apply_all(src, ctx):
     src = r5_let_chain(src, ctx)
     src = r8_sort(src, ctx)
     src = r9_option(src, ctx)
+    src = r9b_or_insert_with(src, ctx)
     src = r11_into_values(src, ctx)
     src = r7_collect(src, ctx)
     src = r2_sum(src, ctx)
